@@ -1,7 +1,8 @@
 (* C11 — cases observed on two real cache.RepoCache sharing a bare remote:
    replay against the Cache model (mismatches) and the property checker C11_ok (failing),
    which compares, at every quiescent point, what the live cache answered with what a cache
-   rebuilt from a copy of the git data answered.
+   rebuilt from a copy of the git data answered, and requires every commit made through the cache to
+   descend from the head the user's ref had before (history_ok: edits build on the merged history).
 
    The Cache model stores, in place of an excerpt / index document / loaded entity, the in-memory
    entity it is a function of (head commit, operation ids, staged operation ids).  This file makes
@@ -328,10 +329,34 @@ Definition step_ok (h : hev * gobs) : bool :=
       (negb (obs_quiescent live) || N.eqb (views_diff_full live rebuilt) 0)
   | _ => true
   end.
-Definition C11_ok (c : case) : bool := forallb step_ok (c_steps c).
+(* "later edits made through the cache build on the merged history": a Commit of bug e through the cache of user r that reports
+   success leaves r's ref of e on a descendant of where it was after r's previous step (only r's own steps move r's refs; a pull
+   in between has put the merged head there).  Evaluated on the refs and the commit graph as read through RepoData. *)
+Definition hev_rep (h : hev) : nat := match h with HEv ev => rep_ev ev | HNop r => r | HObserve r _ _ _ => r end.
+Definition commit_builds_on (s : store) (prev : amap) (h : hev) (o : gobs) : bool :=
+  match h, o_out o with
+  | HEv (VCommit _ e _ _), CDone =>
+      match alookup e prev, alookup e (o_loc o) with
+      | Some h0, Some h1 => is_anc s h0 h1
+      | _, _ => true
+      end
+  | _, _ => true
+  end.
+(* steps whose commit does not build on the previous head of the bug; prev: every user's local refs after his last step *)
+Fixpoint history_bad (s : store) (prev : list amap) (steps : list (hev * gobs)) (i : nat) : list nat :=
+  match steps with
+  | [] => []
+  | (h, o) :: t =>
+      let rest := history_bad s (set_nth (hev_rep h) (o_loc o) prev) t (S i) in
+      if commit_builds_on s (nth (hev_rep h) prev []) h o then rest else i :: rest
+  end.
+Definition history_ok (c : case) : bool := match history_bad (c_store c) [[]; []] (c_steps c) 0 with [] => true | _ => false end.
+
+Definition C11_ok (c : case) : bool := forallb step_ok (c_steps c) && history_ok c.
 Definition failing (cs : list case) : list nat := K_World.index_filter C11_ok 0 cs.
 
-(* replay diagnosis: (divergence from the repaired model; every observation where live <> rebuilt: step, first differing view (8: locked handle);
+(* replay diagnosis: (divergence from the repaired model; every observation where live <> rebuilt: step, first differing view (8: locked handle),
+   then every commit that does not build on the previous head of its bug: (step, 10);
    which "code as found" variants reproduce the observations, if any: 1 index, 2 identity, 3 merge result, 4 eviction, 5-7 combinations) *)
 Fixpoint all_bad (l : list (hev * gobs)) (i : nat) : list (nat * N) :=
   match l with
@@ -350,5 +375,5 @@ Definition variants : list (N * variant) := [
   (6, {| v_index_merged := false; v_ident_updated := false; v_merge_result := true; v_keep_newest := false |});  (* 1, 2 and 4 *)
   (7, {| v_index_merged := false; v_ident_updated := false; v_merge_result := false; v_keep_newest := false |})]. (* all four: the pinned tree *)
 Definition explain (c : case) : option (nat * N) * list (nat * N) * list N :=
-  (divergence fixed c, all_bad (c_steps c) 0,
+  (divergence fixed c, all_bad (c_steps c) 0 ++ map (fun i => (i, 10)) (history_bad (c_store c) [[]; []] (c_steps c) 0),
    map fst (filter (fun p => match divergence (snd p) c with None => true | Some _ => false end) variants)).
